@@ -51,6 +51,7 @@ type scenario struct {
 	files map[string]string
 	cfgs  []string
 	obs   []c12Obs
+	steps []map[string]any // the origin chain as written in the files, for the Lean model of the base-directory logic
 	// accessors
 	svc string // service name in the final project
 	top bool   // attribute is top-level (secrets/configs/volumes)
@@ -142,11 +143,13 @@ func buildScenario(a loadArgs) (*scenario, string) {
 		sc.cfgs = append(sc.cfgs, over)
 		base, relbase, verb = a.Wd, ".", a.Off
 	case "include1":
+		sc.steps = []map[string]any{{"incl": j(a.Dir, "inc.yaml")}}
 		put(mainFile, map[string]any{"include": []any{j(a.Dir, "inc.yaml")}, "services": map[string]any{"main": map[string]any{"image": "m"}}})
 		put(j(proj, a.Dir, "inc.yaml"), merge(map[string]any{"services": map[string]any{"svc": svc}}, top))
 		base, relbase = a.Wd+"/"+a.Dir, j(a.Dir)
 		stages = []string{j(a.Dir)}
 	case "include-multi":
+		sc.steps = []map[string]any{{"incl": j(a.Dir, "inc.yaml")}}
 		// one include entry with two files: the first fixes the project directory, the second (elsewhere) overrides it
 		put(mainFile, map[string]any{"include": []any{map[string]any{"path": []any{j(a.Dir, "inc.yaml"), j("elsewhere", a.Dir2, "over.yaml")}}}, "services": map[string]any{"main": map[string]any{"image": "m"}}})
 		put(j(proj, a.Dir, "inc.yaml"), map[string]any{"services": map[string]any{"svc": map[string]any{"image": "first"}}})
@@ -154,35 +157,41 @@ func buildScenario(a loadArgs) (*scenario, string) {
 		base, relbase = a.Wd+"/"+a.Dir, j(a.Dir)
 		stages = []string{j(a.Dir)}
 	case "include-pd":
+		sc.steps = []map[string]any{{"incl": j(a.Dir, "inc.yaml"), "pd": a.Dir2}}
 		put(mainFile, map[string]any{"include": []any{map[string]any{"path": j(a.Dir, "inc.yaml"), "project_directory": a.Dir2}}, "services": map[string]any{"main": map[string]any{"image": "m"}}})
 		put(j(proj, a.Dir, "inc.yaml"), merge(map[string]any{"services": map[string]any{"svc": svc}}, top))
 		put(j(proj, a.Dir2, ".keep"), map[string]any{})
 		base, relbase = a.Wd+"/"+a.Dir2, j(a.Dir2)
 		stages = []string{j(a.Dir2)}
 	case "include2":
+		sc.steps = []map[string]any{{"incl": j(a.Dir, "inc.yaml")}, {"incl": j(a.Dir2, "inc2.yaml")}}
 		put(mainFile, map[string]any{"include": []any{j(a.Dir, "inc.yaml")}, "services": map[string]any{"main": map[string]any{"image": "m"}}})
 		put(j(proj, a.Dir, "inc.yaml"), map[string]any{"include": []any{map[string]any{"path": j(a.Dir2, "inc2.yaml")}}, "services": map[string]any{"mid": map[string]any{"image": "m"}}})
 		put(j(proj, a.Dir, a.Dir2, "inc2.yaml"), merge(map[string]any{"services": map[string]any{"svc": svc}}, top))
 		base, relbase = a.Wd+"/"+a.Dir+"/"+a.Dir2, j(a.Dir, a.Dir2)
 		stages = []string{j(a.Dir2), j(a.Dir)}
 	case "extends":
+		sc.steps = []map[string]any{{"ext": j(a.Dir, "base.yaml")}}
 		put(mainFile, map[string]any{"services": map[string]any{"svc": map[string]any{"extends": map[string]any{"file": j(a.Dir, "base.yaml"), "service": "b"}, "labels": map[string]any{"own": "./l"}}}})
 		put(j(proj, a.Dir, "base.yaml"), map[string]any{"services": map[string]any{"b": svc}})
 		base, relbase = a.Wd+"/"+a.Dir, j(a.Dir)
 		stages = []string{j(a.Dir)}
 	case "extends-chain":
+		sc.steps = []map[string]any{{"ext": j(a.Dir, "base.yaml")}}
 		// the extended service itself extends a sibling of the same (other-directory) file
 		put(mainFile, map[string]any{"services": map[string]any{"svc": map[string]any{"extends": map[string]any{"file": j(a.Dir, "base.yaml"), "service": "b"}}}})
 		put(j(proj, a.Dir, "base.yaml"), map[string]any{"services": map[string]any{"b": map[string]any{"extends": map[string]any{"service": "c"}, "labels": map[string]any{"mid": "./l"}}, "c": svc}})
 		base, relbase = a.Wd+"/"+a.Dir, j(a.Dir)
 		stages = []string{j(a.Dir)}
 	case "extends2":
+		sc.steps = []map[string]any{{"ext": j(a.Dir, "base.yaml")}, {"ext": j(a.Dir2, "base2.yaml")}}
 		put(mainFile, map[string]any{"services": map[string]any{"svc": map[string]any{"extends": map[string]any{"file": j(a.Dir, "base.yaml"), "service": "b"}}}})
 		put(j(proj, a.Dir, "base.yaml"), map[string]any{"services": map[string]any{"b": map[string]any{"extends": map[string]any{"file": j(a.Dir2, "base2.yaml"), "service": "c"}, "labels": map[string]any{"mid": "./l"}}}})
 		put(j(proj, a.Dir, a.Dir2, "base2.yaml"), map[string]any{"services": map[string]any{"c": svc}})
 		base, relbase = a.Wd+"/"+a.Dir+"/"+a.Dir2, j(a.Dir, a.Dir2)
 		stages = []string{j(a.Dir2), j(a.Dir)}
 	case "include-extends":
+		sc.steps = []map[string]any{{"incl": j(a.Dir, "inc.yaml")}, {"ext": j(a.Dir2, "base.yaml")}}
 		put(mainFile, map[string]any{"include": []any{j(a.Dir, "inc.yaml")}, "services": map[string]any{"main": map[string]any{"image": "m"}}})
 		put(j(proj, a.Dir, "inc.yaml"), map[string]any{"services": map[string]any{"svc": map[string]any{"extends": map[string]any{"file": j(a.Dir2, "base.yaml"), "service": "b"}}}})
 		put(j(proj, a.Dir, a.Dir2, "base.yaml"), map[string]any{"services": map[string]any{"b": svc}})
@@ -280,6 +289,11 @@ func realLoad(raw json.RawMessage) any {
 	}
 	home := filepath.Join(root, "home")
 	os.MkdirAll(home, 0o755)
+	if old, had := os.LookupEnv("HOME"); had {
+		defer os.Setenv("HOME", old)
+	} else {
+		defer os.Unsetenv("HOME")
+	}
 	os.Setenv("HOME", home)
 	// label files are read by the loader: create the one the property says is meant, when it lies inside the temp root
 	if a.Attr == "label_file" {
@@ -311,6 +325,7 @@ func realLoad(raw json.RawMessage) any {
 		cfs = append(cfs, types.ConfigFile{Filename: filepath.Join(root, f)})
 	}
 	details := types.ConfigDetails{WorkingDir: root + "/" + a.Wd, ConfigFiles: cfs, Environment: map[string]string{}}
+	dirs := allDirs(root) // before the load: the loader does not create directories
 	p, err := loader.LoadWithContext(context.Background(), details, func(o *loader.Options) {
 		o.SetProjectName("c12", true)
 		o.ResolvePaths = !a.Off
@@ -328,10 +343,26 @@ func realLoad(raw json.RawMessage) any {
 	json.Unmarshal(b, &tree)
 	got, frame := c12Extract(tree, a.Attr)
 	sc.obs[0].Got = got
-	return map[string]any{"root": root, "home": home, "obs": sc.obs, "frame": frame}
+	return map[string]any{"root": root, "home": home, "obs": sc.obs, "frame": frame, "steps": sc.steps, "dirs": dirs, "wd": details.WorkingDir}
+}
+
+// allDirs lists every directory below root (absolute, clean) — the `isDir` parameter of the Lean model.
+func allDirs(root string) []string {
+	var l []string
+	filepath.Walk(root, func(p string, info os.FileInfo, err error) error {
+		if err == nil && info.IsDir() {
+			l = append(l, p)
+		}
+		return nil
+	})
+	sort.Strings(l)
+	return l
 }
 
 type loadReal struct {
+	Steps []map[string]any `json:"steps"`
+	Dirs  []string         `json:"dirs"`
+	Wd    string           `json:"wd"`
 	Root  string         `json:"root"`
 	Home  string         `json:"home"`
 	Obs   []c12Obs       `json:"obs"`
@@ -356,7 +387,15 @@ func init() {
 				if a.Off {
 					wd = o.RelBase
 				}
-				items = append(items, map[string]any{"kind": o.Kind, "wd": wd, "home": r.Home, "s": o.S})
+				item := map[string]any{"kind": o.Kind, "wd": wd, "home": r.Home, "s": o.S}
+				if r.Wd != "" {
+					steps := r.Steps
+					if steps == nil {
+						steps = []map[string]any{}
+					}
+					item["model"] = map[string]any{"kind": o.Kind, "wd": r.Wd, "home": r.Home, "s": o.S, "final": !a.Off, "dirs": r.Dirs, "steps": steps}
+				}
+				items = append(items, item)
 			}
 			return map[string]any{"items": items}
 		},
@@ -370,6 +409,10 @@ func init() {
 			var d []struct {
 				Want  *string `json:"want"`
 				Class string  `json:"class"`
+				Model *struct {
+					Ok  *string `json:"ok"`
+					Err string  `json:"err"`
+				} `json:"model"`
 			}
 			if json.Unmarshal(real, &r) != nil || json.Unmarshal(drv, &d) != nil {
 				return core.Disagree("malformed load exchange")
@@ -383,6 +426,18 @@ func init() {
 			mode := "on"
 			if a.Off {
 				mode = "off"
+			}
+			// correspondence: the Lean model of the origin logic (Model/PathsOrigin.lean: loaderDir, includeLevel,
+			// extendsLevel, staged resolution) predicts the value in the loaded project
+			if r.Err == "" {
+				for i, o := range r.Obs {
+					if m := d[i].Model; m != nil {
+						got, _ := o.Got.(string)
+						if m.Ok == nil || o.Got == nil || *m.Ok != got {
+							return core.Disagree(fmt.Sprintf("Paths.predict ≠ loader: %s=%q from %s: project has %v, the model predicts %v %s", o.Name, o.S, a.Origin, o.Got, m.Ok, m.Err))
+						}
+					}
+				}
 			}
 			for i, o := range r.Obs {
 				if d[i].Want == nil {
